@@ -106,8 +106,54 @@ func c19History(c *ctx, start typeSpec, ops []c19Op, how string) {
 					}
 					src = sr
 				}
+				srcAttrs, srcRels := src.Attrs(), src.Rels()
+				srcVals := map[string]any{}
+				for k := range srcAttrs {
+					srcVals[k] = src.Get(k)
+				}
+				for k := range srcRels {
+					srcVals[k] = src.Get(k)
+				}
 				col.Add(src)
 				lastSrc = src
+				// Add extends the type with the fields it lacks and stores every value that
+				// fits the (possibly older) definition the collection has for that name
+				if key == "" {
+					ct := col.GetType()
+					stored := col.At(col.Len() - 1)
+					nilish := func(v any) bool {
+						if v == nil {
+							return true
+						}
+						rv := reflect.ValueOf(v)
+						return (rv.Kind() == reflect.Ptr && rv.IsNil()) || (rv.Kind() == reflect.Slice && rv.Len() == 0)
+					}
+					same := func(x, y any) bool { return sameValue(x, y) || (nilish(x) && nilish(y)) }
+					for f, a := range srcAttrs {
+						ca, isA := ct.Attrs[f]
+						_, isR := ct.Rels[f]
+						switch {
+						case !isA && !isR:
+							key, detail = "add-did-not-extend-type", fmt.Sprintf("step %d %s: attribute %s is not in the collection's type", i, o, f)
+						case isA && !isR && ca.Type == a.Type && ca.Nullable == a.Nullable && stored != nil:
+							if got := stored.Get(f); !same(got, srcVals[f]) {
+								key, detail = "add-lost-value", fmt.Sprintf("step %d %s: %s was %s, the stored element reads %s", i, o, f, descValue(srcVals[f]), descValue(got))
+							}
+						}
+					}
+					for f, r := range srcRels {
+						cr, isR := ct.Rels[f]
+						_, isA := ct.Attrs[f]
+						switch {
+						case !isA && !isR:
+							key, detail = "add-did-not-extend-type", fmt.Sprintf("step %d %s: relationship %s is not in the collection's type", i, o, f)
+						case isR && !isA && cr.ToOne == r.ToOne && stored != nil:
+							if got := stored.Get(f); !same(got, srcVals[f]) {
+								key, detail = "add-lost-value", fmt.Sprintf("step %d %s: %s was %s, the stored element reads %s", i, o, f, descValue(srcVals[f]), descValue(got))
+							}
+						}
+					}
+				}
 				it := refItem{id: src.Get("id").(string), vals: map[string]any{}}
 				for k := range src.Attrs() {
 					it.vals[k] = src.Get(k)
@@ -340,6 +386,13 @@ func c19History(c *ctx, start typeSpec, ops []c19Op, how string) {
 	_ = sort.Strings
 }
 
+// c19Untargeted: the base type plus relationships that name no target type (soft only).
+func c19Untargeted() typeSpec {
+	base, _, _, _ := c19Types()
+	return typeSpec{name: "t", fields: append(append([]fieldSpec{}, base.fields...),
+		fieldSpec{rel: true, name: "author", toOne: true, target: ""}, fieldSpec{rel: true, name: "tags", target: ""})}
+}
+
 func c19Types() (base, narrow, wide, conflict typeSpec) {
 	base = typeSpec{name: "t", fields: []fieldSpec{{name: "a", code: 1}, {name: "n", code: 3, nullable: true}, {name: "b", code: 14},
 		{rel: true, name: "one", toOne: true, target: "t"}, {rel: true, name: "many", target: "t"}}}
@@ -355,6 +408,10 @@ func c19RandOp(r *rng) c19Op {
 	case 0, 1, 2, 3:
 		t := pick(r, []typeSpec{base, base, narrow, wide, conflict})
 		rs := resSpecT{t: t, wrapped: r.bool(), ops: c01Ops(r, t, false)}
+		if r.chance(1, 6) {
+			rs.t, rs.wrapped = c19Untargeted(), false
+			rs.ops = c01Ops(r, rs.t, false)
+		}
 		rs.ops[0] = setOp{"id", pick(r, []string{"1", "2", "3", "1", ""})}
 		return c19Op{kind: "add", res: rs}
 	case 4:
@@ -391,6 +448,14 @@ func runC19(c *ctx) {
 		{kind: "addattr", attr: jsonapi.Attr{Name: "one", Type: 4}},
 		{kind: "settype", typ: base},
 	}, "corpus kind change")
+	// corpus: a wider resource whose extra relationships name no target type
+	for _, start := range []typeSpec{{name: "t", fields: []fieldSpec{{name: "a", code: 1}}}, base} {
+		c19History(c, start, []c19Op{
+			{kind: "add", res: resSpecT{t: typeSpec{name: "t", fields: []fieldSpec{{name: "a", code: 1}}}, ops: []setOp{{"id", "1"}, {"a", "first"}}}},
+			{kind: "add", res: resSpecT{t: c19Untargeted(), ops: []setOp{{"id", "2"}, {"a", "second"}, {"author", "u1"}, {"tags", []string{"t1", "t2"}}}}},
+			{kind: "add", res: resSpecT{t: c19Untargeted(), ops: []setOp{{"id", "3"}, {"tags", []string{}}}}},
+		}, "corpus untargeted relationships")
+	}
 	for i := 0; i < n; i++ {
 		var ops []c19Op
 		for k := c.r.intn(15); k > 0; k-- {
